@@ -243,6 +243,24 @@ static void decodeCheck(Ctx* c, const RefDef& d, Message* m, const Values& val, 
   } else if (!samePairs(out.str(), val.pairs)) {
     report(c, string("C09/") + rule + "-mismatch/" + shapeClass(*d.shape) + "/" + lenModeName(*d.shape),
            "decoded \"" + out.str() + "\", supplied/received values " + joinStr(val.pairs), cs);
+  } else {
+    // decoding a single field: by index (counted over the values, master part first) and by name (+ index among
+    // fields of the same name) must give exactly that field's value
+    for (size_t i = 0; i < val.pairs.size(); i++) {
+      string name = val.pairs[i].substr(0, val.pairs[i].find('='));
+      size_t k = 0;
+      for (size_t j = 0; j < i; j++) if (val.pairs[j].compare(0, name.size() + 1, name + "=") == 0) k++;
+      for (int byName = 0; byName < 2; byName++) {
+        std::ostringstream fo;
+        result_t fr = m->decodeLastData(pt_any, false, byName ? name.c_str() : nullptr, (ssize_t)(byName ? k : i), OF_NAMES, &fo);
+        R.transitions++; R.tracesValidated++;
+        if (c->log) printf("  decodeLastData(%s%s%u) -> %s \"%s\" (expected %s)\n", byName ? ("name " + name + ", ").c_str() : "", "index ", (unsigned)(byName ? k : i), rc(fr).c_str(), fo.str().c_str(), val.pairs[i].c_str());
+        if (fr != RESULT_OK || fo.str() != val.pairs[i])
+          report(c, string("C09/decode-single-field/") + (byName ? "by-name" : "by-index") + "/" + shapeClass(*d.shape),
+                 string("decoding field ") + (byName ? "'" + name + "' #" + std::to_string(k) : "#" + std::to_string(i)) + " alone gave " + rc(fr) + " \"" + fo.str() + "\", expected " + val.pairs[i] +
+                 " (whole message: " + joinStr(val.pairs) + ")", cs);
+      }
+    }
   }
 }
 
@@ -513,9 +531,23 @@ static int runDef(Ctx* c, size_t si, const Shape& sh, const Layout& lay, const F
     R.count(tooLong || d.slaveLen > MAX_POS ? "definitions_rejected_too_long" : string("definitions_rejected_within_limits_") + shapeClass(sh) + "_" + lenModeName(sh));
     if (!(tooLong || d.slaveLen > MAX_POS) && g_part == 0 && g_rejectNotes.insert(string(shapeClass(sh)) + lenModeName(sh)).second)
       R.note("rejected by the loader although within the limits (counted, not judged), e.g. " + d.text.substr(1, d.text.size() - 2) + " -> " + L.error);
+    // universe pin: what the documented format promises to load.  Known exceptions of the loader (counted above, not
+    // judged): chained definitions whose explicit lengths add up exactly to the data while the part IDs share a
+    // prefix, and bit fields in chained definitions (bit count compared with the byte limit)
+    bool hasBits = false;
+    for (auto& f : lay) if (f.kind->c == 'B') hasBits = true;
+    bool prefixed = sh.chained() && sh.chain[0][0] == sh.chain[1][0] && sh.chain[0][1] == sh.chain[1][1];
+    bool knownException = sh.chained() && (hasBits || (sh.lenMode == 0 && prefixed));
+    if (!(tooLong || d.slaveLen > MAX_POS) && !knownException)
+      report(c, string("C09/universe-shrunk/") + shapeClass(sh) + "/" + lenModeName(sh), "a definition that is valid by the documented CSV format is not loaded: " + L.error, caseOf(si, d, 0));
     return 1;
   }
   R.distinct(vp::fnv(d.text));
+  if (!sh.chained() && d.slaveLen > MAX_POS) {
+    // "a definition whose data would exceed the supported maximum is rejected when loaded" (slave part; the master
+    // part is judged on the built telegram by nn-exceeds-max)
+    report(c, string("C09/loaded-too-long/slave/") + shapeClass(sh), "definition with " + std::to_string(d.slaveLen) + " slave data bytes (maximum " + std::to_string(MAX_POS) + ") was loaded", caseOf(si, d, 0));
+  }
   if (L.msgs.size() != d.dsts.size()) {
     report(c, string("C09/message-count/") + shapeClass(sh), "definition with " + std::to_string(d.dsts.size()) + " destination(s) created " + std::to_string(L.msgs.size()) + " message(s)", caseOf(si, d, 0));
     return 2;
